@@ -158,6 +158,11 @@ theorem quiet_phyRequest (s : State) (p : Pdu) (o : UInt8) (n : Nat) (s' : State
       exact Quiet.of_eq rfl rfl rfl rfl
   · simp at h
 
+theorem quiet_phyInstantCheck (s : State) : Quiet s (phyInstantCheck s).1 := by
+  unfold phyInstantCheck; split
+  · exact Quiet.of_eq rfl rfl rfl rfl
+  · exact Quiet.refl _
+
 theorem quiet_ctlOther (s : State) (p : Pdu) (o : UInt8) (n : Nat) : Quiet s (ctlOther s p o n).1 := by
   unfold ctlOther
   split
@@ -167,9 +172,9 @@ theorem quiet_ctlOther (s : State) (p : Pdu) (o : UInt8) (n : Nat) : Quiet s (ct
     exact quiet_encryptionPdus _ _ _ _ _ _ h
   · split
     · rename_i s' rsp h
-      exact Quiet.trans (quiet_phyRequest _ _ _ _ _ _ h) (quiet_commit _ _)
+      exact Quiet.trans (Quiet.trans (quiet_phyRequest _ _ _ _ _ _ h) (quiet_phyInstantCheck s')) (quiet_commit _ _)
     · rename_i s' h
-      exact quiet_phyRequest _ _ _ _ _ _ h
+      exact Quiet.trans (quiet_phyRequest _ _ _ _ _ _ h) (quiet_phyInstantCheck s')
     · split
       · exact quiet_commit _ _
       · exact Quiet.refl _
@@ -353,8 +358,8 @@ theorem K_endEventEnter {l : LState} {s : State} (h : K l s) (hp : s.phase ≠ .
 
 theorem K_endEventPlan {l : LState} {s : State} (h : K l s) (he : Est s.phase) : K l (endEventPlan s) := by
   unfold endEventPlan
-  have hq := quiet_handlePending { s with evCounter := s.evCounter + 1, timeSince := s.interval }
-  have hk : K l { s with evCounter := s.evCounter + 1, timeSince := s.interval } := ⟨h.defer, h.order⟩
+  have hq := quiet_handlePending { s with evCounter := (s.evCounter + 1) % 65536, timeSince := s.interval }
+  have hk : K l { s with evCounter := (s.evCounter + 1) % 65536, timeSince := s.interval } := ⟨h.defer, h.order⟩
   split
   · rename_i s' heq
     rw [heq] at hq
@@ -397,16 +402,16 @@ theorem K_endEvent {l : LState} {s : State} (h : K l s) (hp : s.phase ≠ .adver
 theorem K_timeoutPlan {l : LState} {s : State} (h : K l s) (hp : s.phase ≠ .advertising) :
     K l (timeoutPlan s) := by
   unfold timeoutPlan
-  have hk : K l { s with evCounter := s.evCounter + 1, timeSince := s.timeSince + s.interval } := ⟨h.defer, h.order⟩
+  have hk : K l { s with evCounter := (s.evCounter + 1) % 65536, timeSince := s.timeSince + s.interval } := ⟨h.defer, h.order⟩
   by_cases hc : s.phase = .connecting
   · have hd := h.defer (Or.inr hc)
-    have : handlePending { s with evCounter := s.evCounter + 1, timeSince := s.timeSince + s.interval }
-        = ({ s with evCounter := s.evCounter + 1, timeSince := s.timeSince + s.interval }, false) := by
+    have : handlePending { s with evCounter := (s.evCounter + 1) % 65536, timeSince := s.timeSince + s.interval }
+        = ({ s with evCounter := (s.evCounter + 1) % 65536, timeSince := s.timeSince + s.interval }, false) := by
       simp [handlePending, hd]
     rw [this]
     exact hk
   · have he : Est s.phase := by cases hph : s.phase <;> simp_all [Est]
-    have hq := quiet_handlePending { s with evCounter := s.evCounter + 1, timeSince := s.timeSince + s.interval }
+    have hq := quiet_handlePending { s with evCounter := (s.evCounter + 1) % 65536, timeSince := s.timeSince + s.interval }
     split
     · rename_i s' heq
       rw [heq] at hq
